@@ -1,7 +1,7 @@
 """C05 - the latest implementation for the active context supplies a spec."""
 import ast
 
-from ..model import (AnalysisError, FUNC_TYPES, U, call_attr, call_name, dotted, enclosing, guard_texts, short, walk_body, ancestors, parent)
+from ..model import (AnalysisError, FUNC_TYPES, U, call_attr, call_name, dotted, enclosing, guard_texts, short, walk_body, ancestors, parent, kwarg)
 from ..absint import unroll_literal_loops
 from ..util import params, find_calls, trace, stmt_of, has_exit, syn_dominates
 from . import c02, c04
@@ -259,10 +259,17 @@ def r6_flag_propagation(cx):
             cx.bad(rr, "every copied flag is a RegistryPoint constructor parameter", construct="point.%s" % f)
     # RegistryPoint.__init__ stores each flag and passes it to its own datasource registration
     regs = [x for x in find_calls(init.body) if isinstance(x.func, ast.Call) and call_attr(x.func) == "datasource"]
-    kw = dict((k.arg, U(k.value)) for k in regs[0].func.keywords) if regs else {}
+    kw = {}
+    for f in flags:
+        kv = kwarg(regs[0].func, f) if regs else None       # also through **props of a local dict bound once
+        if kv is not None:
+            kw[f] = U(kv)
+    # view: 'for k, v in props.items(): setattr(self, k, v)' over a local dict display is the sequence of attribute assignments
+    unroll_literal_loops(init)
     for f in flags:
         st = [a for a in walk_body(init.body) if isinstance(a, ast.Assign) and any(U(t) == "self.%s" % f for t in a.targets)]
-        ok = len(st) == 1 and f in U(st[0].value) and kw.get(f) in (f, "self.%s" % f)
+        stored = U(st[0].value) if len(st) == 1 else None
+        ok = len(st) == 1 and f in stored and kw.get(f) in (f, "self.%s" % f, stored)
         cx.require(ok, st[0] if st else init, "RegistryPoint stores flag '%s' and registers itself with it" % f, construct=short(st[0]) if st else "(no self.%s)" % f)
     # the delegate variable is the datasource's own delegate
     dd = [a for a in walk_body(rr.body) if isinstance(a, ast.Assign) and U(a.targets[0]) == "delegate"]
